@@ -39,6 +39,10 @@ trait El: Real + FloatConst + approx::RelativeEq + Add<Output = Self> + Debug + 
     /// vek's absolute-epsilon guards (LineSegment degeneracy test, Moeller-Trumbore parallel test) compare with
     /// T::epsilon() / T::default_epsilon() = 2^-GUARD_BITS of the tier (the harness type X answers 2^-52)
     const GUARD_BITS: u32;
+    /// (second audit) number of significand bits of the tier (X: 62, the largest mantissa the dyadic helper hands over as an i64)
+    const MANT: u32;
+    /// (second audit) for a positive value: the k-th representable neighbour (k = +-1: next up / next down); X: self * (1 + k 2^-60)
+    fn nudge(self, k: i64) -> Self;
 }
 fn qpow2(e: i32) -> Q { if e >= 0 { Q::int(1i128 << e) } else { Q::new(1, 1i128 << (-e)) } }
 impl El for f64 {
@@ -51,6 +55,8 @@ impl El for f64 {
     const EPS_BITS: u32 = 52;
     fn pow2(e: i32) -> f64 { assert!((-1000..=1000).contains(&e)); f64::from_bits(((1023 + e) as u64) << 52) }
     const GUARD_BITS: u32 = 52;
+    const MANT: u32 = 53;
+    fn nudge(self, k: i64) -> f64 { assert!(self > 0.0 && self.is_finite()); f64::from_bits((self.to_bits() as i64 + k) as u64) }
 }
 impl El for f32 {
     const NAME: &'static str = "f32";
@@ -62,6 +68,8 @@ impl El for f32 {
     const EPS_BITS: u32 = 23;
     fn pow2(e: i32) -> f32 { assert!((-120..=120).contains(&e)); f32::from_bits(((127 + e) as u32) << 23) }
     const GUARD_BITS: u32 = 23;
+    const MANT: u32 = 24;
+    fn nudge(self, k: i64) -> f32 { assert!(self > 0.0 && self.is_finite()); f32::from_bits((self.to_bits() as i64 + k) as u32) }
 }
 impl El for X {
     const NAME: &'static str = "X";
@@ -74,6 +82,8 @@ impl El for X {
     fn is_pi_times(self, coef: Q) -> bool { self == X::pi() * X::R(coef) || (coef == Q::ZERO && num_traits::Zero::is_zero(&self)) }
     fn pow2(e: i32) -> X { X::R(qpow2(e)) }
     const GUARD_BITS: u32 = 52;
+    const MANT: u32 = 62;
+    fn nudge(self, k: i64) -> X { self * X::R(Q::ONE.add(Q::new(k as i128, 1i128 << 60))) }
 }
 
 // ---------------------------------------------------------------------------------------------
@@ -979,6 +989,574 @@ fn mixed_section(s: &Section) {
     }
 }
 
+// =============================================================================================
+// second audit (out/AUDIT2.md): far-from-origin / mixed-magnitude / one-ulp-tie alphabets, exact-by-construction rays
+
+/// exact dyadic number m * 2^e (m odd or zero): inputs of the second-audit sections are built from these, so that the
+/// harness knows the exact rational value of every float it hands to vek and whether a value is representable in a tier
+#[derive(Clone, Copy, PartialEq, Eq, Debug)]
+struct Dy { m: i128, e: i32 }
+impl Dy {
+    const ZERO: Dy = Dy { m: 0, e: 0 };
+    fn new(m: i128, e: i32) -> Dy { if m == 0 { return Dy::ZERO; } let tz = m.trailing_zeros() as i32; Dy { m: m >> tz, e: e + tz } }
+    fn p2(e: i32) -> Dy { Dy { m: 1, e } }
+    fn int(m: i128) -> Dy { Dy::new(m, 0) }
+    fn neg(self) -> Dy { Dy { m: -self.m, e: self.e } }
+    fn add(self, o: Dy) -> Dy {
+        if self.m == 0 { return o; }
+        if o.m == 0 { return self; }
+        let e = self.e.min(o.e);
+        let (sa, sb) = ((self.e - e) as u32, (o.e - e) as u32);
+        assert!(sa < 120 && sb < 120, "dyadic helper: exponent gap too large");
+        let a = self.m.checked_mul(1i128 << sa).expect("dyadic helper overflow");
+        let b = o.m.checked_mul(1i128 << sb).expect("dyadic helper overflow");
+        Dy::new(a.checked_add(b).expect("dyadic helper overflow"), e)
+    }
+    fn sub(self, o: Dy) -> Dy { self.add(o.neg()) }
+    fn mul(self, o: Dy) -> Dy { Dy::new(self.m.checked_mul(o.m).expect("dyadic helper overflow"), self.e + o.e) }
+    fn bits(self) -> u32 { 128 - self.m.unsigned_abs().leading_zeros() }
+    fn q(self) -> Q { Q::int(self.m).mul(qpow2(self.e)) }
+    /// exactly representable (as a normal number, far from the ends of the exponent range) in the tier
+    fn fits<T: El>(self) -> bool {
+        if self.m == 0 { return true; }
+        let lim = if T::EXACT { 120 } else if T::MANT == 24 { 100 } else { 900 };
+        self.bits() <= T::MANT && self.e > -lim && self.e + (self.bits() as i32) < lim
+    }
+    fn t<T: El>(self) -> T { assert!(self.fits::<T>(), "dyadic helper: value does not fit the tier"); if self.m == 0 { T::zero() } else { T::frac(self.m as i64, 1) * T::pow2(self.e) } }
+    fn abs(self) -> Dy { Dy { m: self.m.abs(), e: self.e } }
+    /// |a| <= |b| without forming quotients (mantissas are aligned only when the leading bits coincide)
+    fn le_abs(a: Dy, b: Dy) -> bool {
+        if a.m == 0 { return true; }
+        if b.m == 0 { return false; }
+        let (ta, tb) = (a.e + a.bits() as i32, b.e + b.bits() as i32);
+        if ta != tb { return ta < tb; }
+        let e = a.e.min(b.e);
+        (a.m.unsigned_abs() << (a.e - e) as u32) <= (b.m.unsigned_abs() << (b.e - e) as u32)
+    }
+}
+fn dyv<T: El>(v: &[Dy; 3]) -> [T; 3] { [v[0].t::<T>(), v[1].t::<T>(), v[2].t::<T>()] }
+fn dyfit<T: El>(v: &[Dy; 3]) -> bool { v.iter().all(|x| x.fits::<T>()) }
+fn jdy(v: &[Dy], d: usize) -> Value { json!(v[..d].iter().map(|x| format!("{:?}", x.q())).collect::<Vec<_>>()) }
+fn jq1(x: Dy) -> Value { json!(format!("{:?}", x.q())) }
+
+// ---- A. disks and spheres far from the origin ---------------------------------------------------------------------
+/// every position is O + n/2 with the per-axis offsets `o` (2^40-sized for f64/X, 2^15-sized for f32): all inputs are exact,
+/// all differences of positions are the small half-integers of the base sections, and so are all the oracles
+fn far_ball<T: El, B: Ball<T>>(s: &Section, centres: &[P3], radii: &[i64], pairs: &[(i64, i64)], o: &[Dy; 3]) {
+    let at = |c: &P3| -> [Dy; 3] { [0, 1, 2].map(|i| o[i].add(Dy::new(c[i] as i128, -1))) };
+    let sites = [format!("{}::contains_point<{}>", B::NAME, T::NAME), format!("{}::{}<{}>", B::NAME, B::COLLIDES, T::NAME), format!("{}::{}<{}>", B::NAME, B::CV, T::NAME),
+        format!("{}::{}<{}>", B::NAME, B::RECT, T::NAME), format!("{}::{}<{}>", B::NAME, B::AAB, T::NAME), format!("{}::diameter<{}>", B::NAME, T::NAME)];
+    centres.par_iter().for_each(|c1| {
+        let mut cls = Cls::default();
+        let (mut n, mut nt) = (0u64, 0u64);
+        let c1t = dyv::<T>(&at(c1));
+        for &r in radii {
+            let ball = B::make(&c1t, T::frac(r, 2));
+            let inp = || json!({"center": jdy(&at(c1), B::D), "radius": jn(r, 2)});
+            let lo = dyv::<T>(&at(&[c1[0] - r, c1[1] - r, c1[2] - r]));
+            let hi = dyv::<T>(&at(&[c1[0] + r, c1[1] + r, c1[2] + r]));
+            let ext = T::frac(r, 1);
+            let w = l1(c1) + r.unsigned_abs();
+            n += 3; if r != 0 { nt += 3; }
+            cls.hit(T::NAME, "bounds");
+            if let Some((pos, e)) = s.call(&sites[3], inp, || ball.rect_()) {
+                if (0..B::D).any(|i| pos[i] != lo[i] || e[i] != ext) { s.violation_w(&sites[3], "far-from-origin:wrong-bounds", json!({"input": inp(), "got_position": jt(&pos, B::D), "got_extent": jt(&e, B::D), "want_min": jt(&lo, B::D), "want_extent": format!("{:?}", ext)}), w); }
+            }
+            if let Some((mn, mx)) = s.call(&sites[4], inp, || ball.aab_()) {
+                if (0..B::D).any(|i| mn[i] != lo[i] || mx[i] != hi[i]) { s.violation_w(&sites[4], "far-from-origin:wrong-bounds", json!({"input": inp(), "got_min": jt(&mn, B::D), "got_max": jt(&mx, B::D), "want_min": jt(&lo, B::D), "want_max": jt(&hi, B::D)}), w); }
+            }
+            if let Some(dm) = s.call(&sites[5], inp, || ball.diam()) {
+                if dm != ext { s.violation_w(&sites[5], "far-from-origin:wrong-value", json!({"input": inp(), "got": format!("{:?}", dm), "want": format!("{:?}", ext)}), w); }
+            }
+        }
+        for p in centres {
+            let pt = dyv::<T>(&at(p));
+            let dd = d2(c1, p);
+            for &r in radii {
+                let want = r >= 0 && dd <= r * r;
+                let ball = B::make(&c1t, T::frac(r, 2));
+                let inp = || json!({"center": jdy(&at(c1), B::D), "radius": jn(r, 2), "p": jdy(&at(p), B::D)});
+                n += 1; if dd != 0 { nt += 1; }
+                match s.call(&sites[0], inp, || ball.contains(&pt)) {
+                    Some(got) => {
+                        cls.hit(T::NAME, if dd < r * r { "inside" } else if dd == r * r { "boundary" } else { "outside" });
+                        if got != want { s.violation_w(&sites[0], "far-from-origin:wrong-verdict", json!({"input": inp(), "distance_squared": format!("{:?}", Q::new(dd as i128, 4)), "radius_squared": format!("{:?}", Q::new((r * r) as i128, 4)), "got": got, "want": want}), l1(c1) + l1(p) + r.unsigned_abs()); }
+                        if dd == r * r && dd != 0 && s.wants_sample() { s.sample(json!({"site": sites[0], "input": inp(), "got": got, "want": want})); }
+                    }
+                    None => cls.hit(T::NAME, "unmodelled-distance"),
+                }
+            }
+            for &(r1, r2) in pairs {
+                let (a, b) = (B::make(&c1t, T::frac(r1, 2)), B::make(&pt, T::frac(r2, 2)));
+                let rsum = r1 + r2;
+                let rr = rsum * rsum;
+                let inp = || json!({"self": {"center": jdy(&at(c1), B::D), "radius": jn(r1, 2)}, "other": {"center": jdy(&at(p), B::D), "radius": jn(r2, 2)}});
+                let w = l1(c1) + l1(p) + r1.unsigned_abs() + r2.unsigned_abs();
+                let want = rsum >= 0 && dd <= rr;
+                n += 1; if dd != 0 { nt += 1; }
+                match s.call(&sites[1], inp, || a.collides(b)) {
+                    Some(got) => {
+                        cls.hit(T::NAME, if dd < rr { "overlapping" } else if dd == rr { "tangent" } else { "disjoint" });
+                        if got != want { s.violation_w(&sites[1], "far-from-origin:wrong-verdict", json!({"input": inp(), "centre_distance_squared": format!("{:?}", Q::new(dd as i128, 4)), "radius_sum_squared": format!("{:?}", Q::new(rr as i128, 4)), "got": got, "want": want}), w); }
+                    }
+                    None => cls.hit(T::NAME, "unmodelled-distance"),
+                }
+                if dd == 0 || rsum < 0 { continue; }
+                n += 1; if dd != rr { nt += 1; }
+                let Some(cv) = s.call(&sites[2], inp, || a.cv(b)) else { cls.hit(T::NAME, "unmodelled-distance"); continue; };
+                cls.hit(T::NAME, if dd < rr { "penetrating" } else if dd == rr { "already-tangent" } else { "separated" });
+                // (other.center + cv) - self.center = (c2 - c1)/2 + cv: the offsets cancel exactly
+                if T::EXACT {
+                    let mut nd = Q::ZERO;
+                    let mut ok = true;
+                    for i in 0..B::D { match cv[i].exact() { Some(v) => { let t = Q::new((p[i] - c1[i]) as i128, 2).add(v); nd = nd.add(t.mul(t)); } None => ok = false } }
+                    let wantq = Q::new(rr as i128, 4);
+                    if !ok || nd != wantq { s.violation_w(&sites[2], "far-from-origin:not-tangent-after-move", json!({"input": inp(), "collision_vector": jt(&cv, B::D), "new_centre_distance_squared": format!("{:?}", nd), "want_(r1+r2)^2": format!("{:?}", wantq)}), w); }
+                } else {
+                    let mut sq = 0f64;
+                    for i in 0..B::D { let t = (p[i] - c1[i]) as f64 / 2.0 + cv[i].f(); sq += t * t; }
+                    let (nd, wantf) = (sq.sqrt(), rsum as f64 / 2.0);
+                    let scale = rsum as f64 / 2.0 + (dd as f64).sqrt() / 2.0 + 1.0;
+                    if !T::close(nd, wantf, scale) { s.violation_w(&sites[2], "far-from-origin:not-tangent-after-move", json!({"input": inp(), "collision_vector": jt(&cv, B::D), "new_centre_distance": nd, "want_r1+r2": wantf}), w); }
+                }
+            }
+        }
+        s.evals(n, nt);
+        cls.flush(s);
+    });
+}
+
+// ---- B1. bounds with a centre and a radius of unrelated magnitudes ---------------------------------------------
+/// min = fl(c - r), max = fl(c + r) (the representable number nearest to the exact value: what one IEEE operation returns; the
+/// harness forms it with the tier's own single subtraction/addition and certifies it against the exact rational), rect extent
+/// and diameter = 2r exactly (doubling is exact). X: everything exact.
+fn mixed_bounds_tier<T: El, B: Ball<T>>(s: &Section, lanes: &[Dy], radii: &[Dy]) {
+    let sites = [format!("{}::{}<{}>", B::NAME, B::RECT, T::NAME), format!("{}::{}<{}>", B::NAME, B::AAB, T::NAME), format!("{}::diameter<{}>", B::NAME, T::NAME)];
+    // certificate: |fl(x) - x| <= 2^-MANT |x|
+    for &cx in lanes { for &cy in lanes { for &cz in lanes {
+        if B::D == 2 && cz != lanes[0] { continue; }
+        let c = [cx, cy, cz];
+        if !dyfit::<T>(&c) { continue; }
+        for &r in radii {
+            if !r.fits::<T>() { continue; }
+            let (ct, rt) = (dyv::<T>(&c), r.t::<T>());
+            let ball = B::make(&ct, rt);
+            let inp = || json!({"center": jdy(&c, B::D), "radius": jq1(r)});
+            let lo = [ct[0] - rt, ct[1] - rt, ct[2] - rt];
+            let hi = [ct[0] + rt, ct[1] + rt, ct[2] + rt];
+            let ext = rt + rt;
+            // certificate of the reference values (exact rationals)
+            let mut inexact = false;
+            for i in 0..B::D {
+                for (v, ex) in [(lo[i], c[i].sub(r)), (hi[i], c[i].add(r))] {
+                    let vq = v.exact().expect("finite");
+                    let vd = Dy::new(vq.n, -(vq.d.trailing_zeros() as i32));
+                    let bound = if ex.m == 0 { Dy::ZERO } else { Dy { m: ex.m, e: ex.e - T::MANT as i32 } };
+                    assert!(Dy::le_abs(vd.sub(ex), bound), "oracle error: reference bound is not the nearest representable number");
+                    if vd != ex { inexact = true; }
+                }
+            }
+            assert!(ext.exact() == Some(r.q().mul(Q::int(2))), "oracle error: 2r");
+            s.class(&format!("{}/{}", T::NAME, if inexact { "centre+-radius rounds" } else { "centre+-radius exact" }));
+            let w = (c.iter().map(|x| x.e.unsigned_abs() as u64 + x.bits() as u64).sum::<u64>()) + r.e.unsigned_abs() as u64;
+            s.eval(r.m != 0);
+            if let Some((pos, e)) = s.call(&sites[0], inp, || ball.rect_()) {
+                if (0..B::D).any(|i| pos[i] != lo[i] || e[i] != ext) { s.violation_w(&sites[0], "mixed-magnitude:wrong-bounds", json!({"input": inp(), "got_position": jt(&pos, B::D), "got_extent": jt(&e, B::D), "want_position": jt(&lo, B::D), "want_extent": format!("{:?}", ext)}), w); }
+            }
+            s.eval(r.m != 0);
+            if let Some((mn, mx)) = s.call(&sites[1], inp, || ball.aab_()) {
+                if (0..B::D).any(|i| mn[i] != lo[i] || mx[i] != hi[i]) { s.violation_w(&sites[1], "mixed-magnitude:wrong-bounds", json!({"input": inp(), "got_min": jt(&mn, B::D), "got_max": jt(&mx, B::D), "want_min": jt(&lo, B::D), "want_max": jt(&hi, B::D)}), w); }
+            }
+            s.eval(r.m != 0);
+            if let Some(dm) = s.call(&sites[2], inp, || ball.diam()) {
+                if dm != ext { s.violation_w(&sites[2], "mixed-magnitude:wrong-value", json!({"input": inp(), "got": format!("{:?}", dm), "want": format!("{:?}", ext)}), w); }
+            }
+        }
+    } } }
+}
+
+// ---- B2. collision vector: separation and radii of unrelated magnitudes, nearly unit separations -------------------
+/// v = other.center - self.center = dir * 2^ev with an integer (or dyadic) direction of RATIONAL length len, radii (a, b)/2 * 2^er.
+/// X: |v + cv|^2 == (r1 + r2)^2 exactly. Floats: |v| is computed exactly by vek (v.v is exact and a perfect square, or v is
+/// axis-aligned: sqrt(fl(x^2)) = |x|), mag = fl(rsum - |v|) has error <= eps/2 (rsum + |v|), v/|v| and the product add a relative
+/// eps/2 each: |cv - exact| <= 2 eps (rsum + |v|) per component; the harness recomputes |v + cv| in f64 (error < 4 eps64 of it).
+fn mixed_cv_tier<T: El, B: Ball<T>>(s: &Section, dirs: &[([Dy; 3], Dy)], evs: &[i32], rpairs: &[(i64, i64)], ers: &[i32]) {
+    let site = format!("{}::{}<{}>", B::NAME, B::CV, T::NAME);
+    for (dir, len) in dirs {
+        if B::D == 2 && dir[2].m != 0 { continue; }
+        for &ev in evs { for &er in ers { for &(a, b) in rpairs { for base in [[0i128, 0, 0], [3, -7, 5]] {
+            let sc = Dy::p2(ev);
+            let v = [dir[0].mul(sc), dir[1].mul(sc), dir[2].mul(sc)];
+            let vlen = len.mul(sc);
+            let c1 = [Dy::int(base[0]).mul(sc), Dy::int(base[1]).mul(sc), Dy::int(base[2]).mul(sc)];
+            let c2 = [c1[0].add(v[0]), c1[1].add(v[1]), c1[2].add(v[2])];
+            let (r1, r2) = (Dy::new(a as i128, er - 1), Dy::new(b as i128, er - 1));
+            let rsum = r1.add(r2);
+            if rsum.m < 0 || !dyfit::<T>(&c1) || !dyfit::<T>(&c2) || !dyfit::<T>(&v) || !r1.fits::<T>() || !r2.fits::<T>() || !rsum.fits::<T>() || !vlen.fits::<T>() { s.class("skipped: not representable in the tier"); continue; }
+            let (sa, sb) = (B::make(&dyv::<T>(&c1), r1.t::<T>()), B::make(&dyv::<T>(&c2), r2.t::<T>()));
+            let inp = || json!({"self": {"center": jdy(&c1, B::D), "radius": jq1(r1)}, "other": {"center": jdy(&c2, B::D), "radius": jq1(r2)}, "|v|": jq1(vlen)});
+            let w = (ev.unsigned_abs() + er.unsigned_abs()) as u64 + (a.unsigned_abs() + b.unsigned_abs()) + dir.iter().map(|x| x.bits() as u64).sum::<u64>();
+            let cmp = vlen.q().cmp(rsum.q());
+            s.eval(cmp != std::cmp::Ordering::Equal);
+            let Some(cv) = s.call(&site, inp, || sa.cv(sb)) else { s.class(&format!("{}/unmodelled", T::NAME)); continue; };
+            s.class(&format!("{}/{}", T::NAME, match cmp { std::cmp::Ordering::Less => "penetrating", std::cmp::Ordering::Equal => "already-tangent", _ => "separated" }));
+            if ev != er { s.class(&format!("{}/separation and radii at different scales", T::NAME)); }
+            if len.m != 1 && dir.iter().filter(|x| x.m != 0).count() == 1 { s.class(&format!("{}/nearly-unit separation", T::NAME)); }
+            if T::EXACT {
+                let want = rsum.q().mul(rsum.q());
+                // (the harness' own rational arithmetic may overflow on a wildly wrong vector: counted as unmodelled, never a verdict)
+                let Ok(nd) = catch(|| { let mut nd = Q::ZERO; for i in 0..B::D { let t = v[i].q().add(cv[i].exact().expect("rational")); nd = nd.add(t.mul(t)); } nd }) else { s.unmodelled("oracle rational overflow"); continue; };
+                if nd != want { s.violation_w(&site, "mixed-magnitude:not-tangent-after-move", json!({"input": inp(), "collision_vector": jt(&cv, B::D), "new_centre_distance_squared": format!("{:?}", nd), "want_(r1+r2)^2": format!("{:?}", want)}), w); }
+            } else {
+                let mut sq = 0f64;
+                for i in 0..B::D { let t = v[i].q().to_f64() + cv[i].f(); sq += t * t; }
+                let (nd, want) = (sq.sqrt(), rsum.q().to_f64());
+                let scale = want + vlen.q().to_f64();
+                let bound = 8.0 * T::eps().to_f64() * scale + 4.0 * f64::EPSILON * scale;
+                if !((nd - want).abs() <= bound) { s.violation_w(&site, "mixed-magnitude:not-tangent-after-move", json!({"input": inp(), "collision_vector": jt(&cv, B::D), "new_centre_distance": nd, "want_r1+r2": want, "bound": bound}), w); }
+            }
+        } } } }
+    }
+}
+
+// ---- B3. one-ulp ties: axis-aligned separations, radius = the separation's neighbours ----------------------------
+/// centre and query differ along ONE axis by d (any representable number; the subtraction is exact because one of the two
+/// coordinates is 0 or the difference is representable): vek's distance is sqrt(fl(d*d)) = |d| exactly (a classical property of
+/// correctly rounded binary arithmetic; trivially true in X), so the verdicts must be exactly |d| <= r resp. |d| <= r1 + r2
+/// for r one representable number below |d|, |d| itself, one above, and -|d| (sums r1 + r2 chosen exact).
+fn ulp_tie_tier<T: El, B: Ball<T>>(s: &Section, ds: &[Dy]) {
+    let (site_c, site_k) = (format!("{}::contains_point<{}>", B::NAME, T::NAME), format!("{}::{}<{}>", B::NAME, B::COLLIDES, T::NAME));
+    for &d in ds {
+        if !d.fits::<T>() || !d.add(d).fits::<T>() { continue; }
+        let dt = d.t::<T>();
+        for axis in 0..B::D { for sign in [1i128, -1] { for mode in 0..3 {
+            // mode 0: centre 0, query +-d e_axis; mode 1: centre +-d e_axis, query 0; mode 2: centre +-d, query +-2d
+            let sd = if sign > 0 { d } else { d.neg() };
+            let (mut c, mut p) = ([Dy::ZERO; 3], [Dy::ZERO; 3]);
+            match mode { 0 => p[axis] = sd, 1 => c[axis] = sd, _ => { c[axis] = sd; p[axis] = sd.add(sd); } }
+            let (ct, pt) = (dyv::<T>(&c), dyv::<T>(&p));
+            for k in [-1i64, 0, 1, i64::MIN] {
+                let r = if k == i64::MIN { -dt } else { dt.nudge(k) };
+                let Some(rq) = r.exact() else { continue };
+                // exact comparison |d| <= r on dyadics (no cross-multiplication)
+                let rd = Dy::new(rq.n, -(rq.d.trailing_zeros() as i32));
+                let want = rd.m >= 0 && Dy::le_abs(d, rd);
+                let kind = if k == i64::MIN { "radius = -|d|" } else if k < 0 { "radius one step below |d|" } else if k == 0 { "radius = |d|" } else { "radius one step above |d|" };
+                let inp = || json!({"center": jdy(&c, B::D), "p": jdy(&p, B::D), "radius": format!("{:?}", rq), "|p - center|": jq1(d)});
+                let w = d.bits() as u64 + d.e.unsigned_abs() as u64 + mode as u64;
+                s.eval(true);
+                if let Some(got) = s.call(&site_c, inp, || B::make(&ct, r).contains(&pt)) {
+                    s.class(&format!("{}/{}", T::NAME, kind));
+                    if got != want { s.violation_w(&site_c, "ulp-tie:wrong-verdict", json!({"input": inp(), "case": kind, "got": got, "want": want}), w); }
+                    if k == -1 && s.wants_sample() { s.sample(json!({"site": site_c, "input": inp(), "case": kind, "got": got, "want": want})); }
+                }
+                // two shapes: (r/2, r/2), (0, r), (r, 0): every sum is exact
+                let half = r * T::frac(1, 2);
+                for (r1, r2) in [(half, half), (T::zero(), r), (r, T::zero())] {
+                    let inp2 = || json!({"self": {"center": jdy(&c, B::D), "radius": format!("{:?}", r1)}, "other": {"center": jdy(&p, B::D), "radius": format!("{:?}", r2)}, "centre_distance": jq1(d), "radius_sum": format!("{:?}", rq)});
+                    s.eval(true);
+                    if let Some(got) = s.call(&site_k, inp2, || B::make(&ct, r1).collides(B::make(&pt, r2))) {
+                        if got != want { s.violation_w(&site_k, "ulp-tie:wrong-verdict", json!({"input": inp2(), "case": kind, "got": got, "want": want}), w); }
+                    }
+                }
+            }
+        } } }
+    }
+}
+
+// ---- C. rays: exact-by-construction configurations in an axis frame -----------------------------------------------
+struct AxCase { tri: [[Dy; 3]; 3], o: [Dy; 3], d: [Dy; 3], u: Dy, v: Dy, tt: Dy, kind: &'static str, fam: &'static str }
+
+/// Local frame (ax1, ax2, ax3) = a signed permutation of the coordinate axes. Triangle v0, v0 + L1 ax1, v0 + L2 ax2 (L1, L2
+/// powers of two), direction alpha ax1 + beta ax2 + gamma ax3 (gamma a power of two up to sign), origin chosen such that the
+/// line meets the plane at v0 + u L1 ax1 + v L2 ax2 with parameter tt: origin = that point - tt * direction.
+/// Closed form: Some(tt) iff u >= 0, v >= 0, u + v <= 1 (gamma != 0: never parallel).
+/// In binary floating point every operation of Moeller-Trumbore is exact on these inputs whenever the listed quantities are
+/// representable: each cross-product component has one non-zero product, a = -+gamma L1 L2 is a power of two (exact reciprocal),
+/// s.h = -+gamma L2 (u L1), d.q = -+gamma L1 (v L2), e2.q = L1 L2 h are sums of at most two exact products with a representable
+/// sum, so u, v, u + v (filtered: must be representable) and t are exact and the float verdict/value must equal the rational one.
+fn ax_cases<T: El>(th: bool) -> Vec<AxCase> {
+    let p = if T::EXACT { 53 } else { T::MANT as i32 };
+    let e = Dy::p2(-(p - 1));
+    let dl = Dy::p2(-60);
+    let (z, one, half, qu) = (Dy::ZERO, Dy::int(1), Dy::p2(-1), Dy::p2(-2));
+    let fine: Vec<(Dy, Dy)> = vec![
+        (dl.neg(), qu), (z, qu), (dl, qu), (qu, dl.neg()), (qu, z), (qu, dl), (dl.neg(), dl.neg()), (z, z), (dl, dl),
+        (half, half), (half, half.add(e)), (half, half.sub(Dy::new(1, -p))), (one, z), (one.add(e), z), (one.sub(Dy::new(1, -p)), z), (z, one), (z, one.add(e)),
+        (one, dl), (dl, one), (qu, Dy::new(3, -2)), (qu, Dy::new(3, -2).add(e)), (e.neg(), qu), (qu, e.neg()), (e, e), (e.neg(), one), (one, e.neg()),
+    ];
+    let cvals = [Dy::new(-1, -2), z, qu, half, one, Dy::new(5, -2)];
+    let coarse: Vec<(Dy, Dy)> = cvals.iter().flat_map(|&a| cvals.iter().map(move |&b| (a, b))).collect();
+    // (L1, L2, gamma)
+    let frames: Vec<(Dy, Dy, Dy, &'static str)> = if T::MANT == 24 {
+        vec![(one, one, one.neg(), "unit"), (Dy::int(4), half, Dy::int(2), "unit"), (Dy::p2(6), Dy::p2(-14), one, "thin triangle"), (Dy::p2(6), one, Dy::p2(-14), "short direction"), (Dy::p2(12), Dy::p2(12), Dy::p2(-25).neg(), "large triangle, grazing direction")]
+    } else {
+        vec![(one, one, one.neg(), "unit"), (Dy::int(4), half, Dy::int(2), "unit"), (Dy::p2(10), Dy::p2(-30), one, "thin triangle"), (Dy::p2(10), one, Dy::p2(-30), "short direction"), (Dy::p2(30), Dy::p2(30), Dy::p2(-55).neg(), "large triangle, grazing direction")]
+    };
+    let big = if T::MANT == 24 { Dy::p2(8) } else { Dy::p2(20) };
+    let slopes = [(z, z), (one, z), (Dy::int(-3), Dy::int(2)), (big, big.neg())];
+    let perms: [[usize; 3]; 6] = [[0, 1, 2], [0, 2, 1], [1, 0, 2], [1, 2, 0], [2, 0, 1], [2, 1, 0]];
+    let signs: &[[i128; 3]] = if th { &[[1, 1, 1], [-1, 1, -1], [1, -1, -1], [-1, -1, 1], [1, 1, -1]] } else { &[[1, 1, 1], [-1, 1, -1], [1, -1, -1]] };
+    let guard = qpow2(-(T::GUARD_BITS as i32));
+    let mut out = Vec::new();
+    for &(l1_, l2_, g, fam) in &frames {
+        assert!(l1_.mul(l2_).mul(g).abs().q() >= guard, "frame inside vek's epsilon guard");
+        for (is_fine, uvs) in [(true, &fine), (false, &coarse)] {
+            for &(u, v) in uvs.iter() { for &(al, be) in &slopes {
+                let tts: Vec<Dy> = if is_fine { if al.m == 0 && be.m == 0 { vec![one, Dy::int(-2), z] } else { vec![z] } } else { vec![one, Dy::int(-2), Dy::p2(-(if T::MANT == 24 { 8 } else { 20 }))] };
+                for tt in tts {
+                    let x = u.mul(l1_).sub(tt.mul(al));
+                    let y = v.mul(l2_).sub(tt.mul(be));
+                    let hh = tt.mul(g).neg();
+                    let sum = u.add(v);
+                    if !(x.fits::<T>() && y.fits::<T>() && hh.fits::<T>() && u.fits::<T>() && v.fits::<T>() && sum.fits::<T>()) { continue; }
+                    let hit = u.m >= 0 && v.m >= 0 && sum.q() <= Q::ONE;
+                    let zeros = (u.m == 0) as u8 + (v.m == 0) as u8 + (sum.q() == Q::ONE) as u8;
+                    let kind = if !hit { if is_fine { "barely-outside" } else { "miss" } } else { match zeros { 0 => if is_fine { "barely-inside" } else { "interior" }, 1 => "edge", _ => "vertex" } };
+                    for v0l in [[z, z, z], [Dy::int(3), Dy::int(-7), Dy::int(5)]] {
+                        let loc_tri = [v0l, [v0l[0].add(l1_), v0l[1], v0l[2]], [v0l[0], v0l[1].add(l2_), v0l[2]]];
+                        let loc_o = [v0l[0].add(x), v0l[1].add(y), v0l[2].add(hh)];
+                        let loc_d = [al, be, g];
+                        if !(loc_tri.iter().all(dyfit::<T>) && dyfit::<T>(&loc_o) && dyfit::<T>(&loc_d)) { continue; }
+                        for pm in perms { for sg in signs {
+                            let map = |l: &[Dy; 3]| -> [Dy; 3] { let mut gl = [z; 3]; for i in 0..3 { gl[pm[i]] = if sg[i] < 0 { l[i].neg() } else { l[i] }; } gl };
+                            out.push(AxCase { tri: [map(&loc_tri[0]), map(&loc_tri[1]), map(&loc_tri[2])], o: map(&loc_o), d: map(&loc_d), u, v, tt, kind, fam });
+                        } }
+                    }
+                }
+            } }
+        }
+    }
+    out
+}
+
+fn ax_ray_tier<T: El>(s: &Section, th: bool) {
+    let site = format!("Ray::triangle_intersection<{}>", T::NAME);
+    let cases = ax_cases::<T>(th);
+    s.meta(&format!("cases_{}", T::NAME), json!(cases.len()));
+    cases.par_chunks(2048).for_each(|chunk| {
+        let mut cls = Cls::default();
+        let mut n = 0u64;
+        for c in chunk {
+            let tri = [v3(&dyv::<T>(&c.tri[0])), v3(&dyv::<T>(&c.tri[1])), v3(&dyv::<T>(&c.tri[2]))];
+            let ray = Ray::new(v3(&dyv::<T>(&c.o)), v3(&dyv::<T>(&c.d)));
+            let hit = c.u.m >= 0 && c.v.m >= 0 && c.u.add(c.v).q() <= Q::ONE;
+            let want: Option<Q> = if hit { Some(c.tt.q()) } else { None };
+            let inp = || json!({"triangle": [jdy(&c.tri[0], 3), jdy(&c.tri[1], 3), jdy(&c.tri[2], 3)], "origin": jdy(&c.o, 3), "direction": jdy(&c.d, 3), "barycentric_u_v": [jq1(c.u), jq1(c.v)], "u+v": jq1(c.u.add(c.v)), "t": jq1(c.tt), "configuration": c.fam});
+            let w = (c.u.bits() + c.v.bits() + c.tt.bits()) as u64 + c.tri.iter().chain([c.o, c.d].iter()).map(|p| p.iter().map(|x| x.bits() as u64).sum::<u64>()).sum::<u64>();
+            n += 1;
+            cls.hit(T::NAME, c.kind);
+            if c.fam != "unit" { cls.hit(T::NAME, c.fam); }
+            let got = match catch(|| ray.triangle_intersection(tri)) {
+                Ok(g) => g,
+                Err(Caught::Unmodelled(why)) => { s.unmodelled(why); continue; }
+                Err(Caught::Panic(m)) => { s.violation_w(&site, "panic", json!({"input": inp(), "panic": m}), w); continue; }
+            };
+            let gq: Option<Option<Q>> = got.map(|x| x.exact());
+            if gq != want.map(Some) {
+                let class = match (gq, want) { (None, Some(_)) => "axis-frame:missed-hit", (Some(_), None) => "axis-frame:false-hit", _ => "axis-frame:wrong-distance" };
+                s.violation_w(&site, class, json!({"input": inp(), "case": c.kind, "got": format!("{:?}", got), "want": format!("{:?}", want)}), w);
+            }
+            if c.kind == "barely-outside" && s.wants_sample() { s.sample(json!({"site": site, "input": inp(), "case": c.kind, "got": format!("{:?}", got), "want": format!("{:?}", want)})); }
+        }
+        s.evals(n, n);
+        cls.flush(s);
+    });
+}
+
+// ---- D. rays: float tiers outside the exact-reciprocal sub-space, triangles far from the origin -------------------
+fn adot3(a: &[i128; 3], b: &[i128; 3]) -> i128 { (a[0] * b[0]).abs() + (a[1] * b[1]).abs() + (a[2] * b[2]).abs() }
+fn across3(a: &[i128; 3], b: &[i128; 3]) -> i128 { (0..3).map(|i| (a[(i + 1) % 3] * b[(i + 2) % 3]).abs() + (a[(i + 2) % 3] * b[(i + 1) % 3]).abs()).max().unwrap() }
+fn w3(a: &P3) -> [i128; 3] { [a[0] as i128, a[1] as i128, a[2] as i128] }
+
+/// float tiers on integer inputs whose Cramer determinant is NOT a power of two (the cases `ray_case` skips). All vertices,
+/// origins and directions are integers (+ a common offset `off` that cancels exactly in v1 - v0, v2 - v0, origin - v0), and every
+/// product and partial sum of Moeller-Trumbore stays below 2^MANT (checked case by case with a bound on the sum of magnitudes), so
+/// a, s.h, d.q, e2.q are exact integers and the only roundings are f = fl(1/a) and one multiplication:
+/// u, v, t carry a relative error <= (1 + eps/2)^2 - 1 < 2 eps and have the exact sign. Hence: exact u < 0 or v < 0 => None;
+/// exact u > 1 or u + v > 1 => at least 1 + 1/|det| > 1 + 4 eps => None; exact hit with u + v < 1 => Some(t') with
+/// |t' - t| <= 2 eps |t|; exact u + v = 1 is a rounding tie for the float code: verdict left open (value checked if Some).
+fn ray_inexact<T: El>(s: &Section, cases: &[([P3; 3], P3, P3)], off: &P3, pre: &str) {
+    let site = format!("Ray::triangle_intersection<{}>", T::NAME);
+    let lim = 1i128 << T::MANT;
+    let rel = Q::new(1, 1i128 << (T::EPS_BITS - 1));
+    cases.par_chunks(4096).for_each(|chunk| {
+        let mut cls = Cls::default();
+        let mut n = 0u64;
+        for (tri, o, d) in chunk {
+            let (e1, e2, sv, dv) = (w3(&sub3(&tri[1], &tri[0])), w3(&sub3(&tri[2], &tri[0])), w3(&sub3(o, &tri[0])), w3(d));
+            let md = [-dv[0], -dv[1], -dv[2]];
+            let colm = |a: &[i128; 3], b: &[i128; 3], c: &[i128; 3]| -> A<i128, 3> { let mut m = [[0i128; 3]; 3]; for i in 0..3 { m[i] = [a[i], b[i], c[i]]; } m };
+            let det0 = det(&colm(&e1, &e2, &md));
+            if det0 == 0 || (det0.unsigned_abs() & (det0.unsigned_abs() - 1)) == 0 { continue; }
+            let h = cross3(&dv, &e2);
+            let qv = cross3(&sv, &e1);
+            let coord_max = tri.iter().chain([*o].iter()).map(|p| (0..3).map(|i| (p[i] as i128 + off[i] as i128).abs()).max().unwrap()).max().unwrap();
+            let big = [across3(&dv, &e2), adot3(&e1, &h), adot3(&sv, &h), across3(&sv, &e1), adot3(&dv, &qv), adot3(&e2, &qv), coord_max].into_iter().max().unwrap();
+            if big >= lim { cls.hit(T::NAME, "skipped-products-not-exact"); continue; }
+            let (du, dvv, dt) = (det(&colm(&sv, &e2, &md)), det(&colm(&e1, &sv, &md)), det(&colm(&e1, &e2, &sv)));
+            let (u, v, t) = (Q::new(du, det0), Q::new(dvv, det0), Q::new(dt, det0));
+            let sum = u.add(v);
+            let hit = u >= Q::ZERO && v >= Q::ZERO && sum <= Q::ONE;
+            let tie = hit && sum == Q::ONE;
+            let ov = |p: &P3| -> [T; 3] { [T::frac(p[0] + off[0], 1), T::frac(p[1] + off[1], 1), T::frac(p[2] + off[2], 1)] };
+            let tt = [v3(&ov(&tri[0])), v3(&ov(&tri[1])), v3(&ov(&tri[2]))];
+            let ray = Ray::new(v3(&ov(o)), v3(&tv::<T>(d, 1)));
+            let inp = || json!({"triangle": tri, "origin": o, "direction": d, "common_offset_added_to_vertices_and_origin": off, "cramer": {"det": det0.to_string(), "u": format!("{:?}", u), "v": format!("{:?}", v), "t": format!("{:?}", t)}});
+            let w = l1(&tri[0]) + l1(&tri[1]) + l1(&tri[2]) + l1(o) + l1(d);
+            n += 1;
+            let Some(got) = s.call(&site, inp, || ray.triangle_intersection(tt)) else { continue };
+            cls.hit(T::NAME, if tie { "inexact-reciprocal: u+v = 1 (verdict open)" } else if hit { "inexact-reciprocal: hit" } else { "inexact-reciprocal: miss" });
+            match got {
+                None => if hit && !tie { s.violation_w(&site, &format!("{}inexact-reciprocal:missed-hit", pre), json!({"input": inp(), "got": "None"}), w); },
+                Some(g) => {
+                    if !hit { s.violation_w(&site, &format!("{}inexact-reciprocal:false-hit", pre), json!({"input": inp(), "got": g.f()}), w); }
+                    else {
+                        let ok = match g.exact() { Some(gq) => gq.sub(t).abs() <= t.abs().mul(rel), None => false };
+                        if !ok { s.violation_w(&site, &format!("{}inexact-reciprocal:wrong-distance", pre), json!({"input": inp(), "got": g.f(), "want": t.to_f64(), "allowed_relative_error": rel.to_f64()}), w); }
+                    }
+                }
+            }
+        }
+        s.evals(n, n);
+        cls.flush(s);
+    });
+}
+
+/// a smaller list of aimed cases (two scalene triangles of TRIS, all vertex orders, the 49 targets, directions {-1,0,1}^3, four parameters)
+fn aimed_small() -> Vec<([P3; 3], P3, P3)> {
+    let dirs: Vec<P3> = cube(&[-1, 0, 1], 3).into_iter().filter(|d| *d != [0, 0, 0]).chain([[2, -1, 1], [1, 2, -2], [-2, 1, 2]]).collect();
+    let perms: [[usize; 3]; 6] = [[0, 1, 2], [0, 2, 1], [1, 0, 2], [1, 2, 0], [2, 0, 1], [2, 1, 0]];
+    let mut out = Vec::new();
+    for [v0, a, b] in [TRIS[0], TRIS[2]] {
+        let vs: [P3; 3] = [v0, [0, 1, 2].map(|i| v0[i] + 4 * a[i]), [0, 1, 2].map(|i| v0[i] + 4 * b[i])];
+        for pm in perms {
+            let tri = [vs[pm[0]], vs[pm[1]], vs[pm[2]]];
+            for i in -1..=5i64 { for j in -1..=5i64 {
+                let target: P3 = [0, 1, 2].map(|k| v0[k] + i * a[k] + j * b[k]);
+                for d in &dirs { for t in [-2i64, 0, 1, 3] { out.push((tri, [0, 1, 2].map(|k| target[k] - t * d[k]), *d)); } }
+            } }
+        }
+    }
+    out
+}
+fn translate(cases: &[([P3; 3], P3, P3)], off: &P3) -> Vec<([P3; 3], P3, P3)> {
+    let mv = |p: &P3| -> P3 { [p[0] + off[0], p[1] + off[1], p[2] + off[2]] };
+    cases.iter().map(|(t, o, d)| ([mv(&t[0]), mv(&t[1]), mv(&t[2])], mv(o), *d)).collect()
+}
+
+// ---- E. segments: end points, mid points and perpendicular offsets that are exact by construction -------------------
+/// start = (S, S, S) + nothing else, e = +-2^b on one axis or on two axes; queries: end, start, end + e, start - e, start + e/2,
+/// end + 3*2^b on a perpendicular axis. On these inputs p - start, (p - start).e, |e|^2 are exact, t is exactly 1, 0, 1, 0, 1/2, 1
+/// (after clamping) and start + e*t is representable: any implementation that evaluates the formula of the property returns the
+/// expected point EXACTLY, in every tier, and the distance (0, |e| or 3*2^b: square roots of exact squares) as well.
+/// (S, b) include a segment between two ADJACENT floats far from the origin whose squared length is still above vek's epsilon guard.
+fn seg_ends_tier<T: El, S: Seg<T>>(s: &Section, sbs: &[(Dy, i32)]) {
+    let (site_p, site_d) = (format!("{}::projected_point<{}>", S::NAME, T::NAME), format!("{}::distance_to_point<{}>", S::NAME, T::NAME));
+    let guard = qpow2(-(T::GUARD_BITS as i32));
+    for &(s0, b) in sbs {
+        let step = Dy::p2(b);
+        let mut shapes: Vec<[Dy; 3]> = Vec::new();
+        for ax in 0..S::D { for sg in [1, -1] {
+            let mut e = [Dy::ZERO; 3]; e[ax] = if sg > 0 { step } else { step.neg() }; shapes.push(e);
+            let ax2 = (ax + 1) % S::D;
+            for sg2 in [1, -1] { let mut e2 = e; e2[ax2] = if sg2 > 0 { step } else { step.neg() }; shapes.push(e2); }
+        } }
+        for e in shapes {
+            let start = [s0, s0, if S::D == 3 { s0 } else { Dy::ZERO }];
+            let end = [start[0].add(e[0]), start[1].add(e[1]), start[2].add(e[2])];
+            let lanes_e = e.iter().filter(|x| x.m != 0).count();
+            let len_sq = Q::int(lanes_e as i128).mul(step.q()).mul(step.q());
+            assert!(len_sq > guard, "segment inside vek's epsilon guard");
+            if !dyfit::<T>(&start) || !dyfit::<T>(&end) { s.class("skipped: not representable in the tier"); continue; }
+            let adjacent = !T::EXACT && s0.m > 0 && (s0.t::<T>().nudge(1).exact() == Some(s0.add(step).q()));
+            let seg = S::make(&dyv::<T>(&start), &dyv::<T>(&end));
+            // (query, expected point, expected distance if rational, name)
+            let mut qs: Vec<([Dy; 3], [Dy; 3], Option<Dy>, &'static str)> = vec![
+                (end, end, Some(Dy::ZERO), "query = end"),
+                (start, start, Some(Dy::ZERO), "query = start"),
+                ([end[0].add(e[0]), end[1].add(e[1]), end[2].add(e[2])], end, if lanes_e == 1 { Some(step) } else { None }, "query beyond end"),
+                ([start[0].sub(e[0]), start[1].sub(e[1]), start[2].sub(e[2])], start, if lanes_e == 1 { Some(step) } else { None }, "query before start"),
+            ];
+            let hf = Dy::p2(-1);
+            let mid = [start[0].add(e[0].mul(hf)), start[1].add(e[1].mul(hf)), start[2].add(e[2].mul(hf))];
+            qs.push((mid, mid, Some(Dy::ZERO), "query = mid point"));
+            for ax in 0..S::D { if e[ax].m == 0 {
+                let off = Dy::new(3, b);
+                let mut p = end; p[ax] = p[ax].add(off);
+                qs.push((p, end, Some(off), "query = end + perpendicular offset"));
+                let mut p = start; p[ax] = p[ax].sub(off);
+                qs.push((p, start, Some(off), "query = start + perpendicular offset"));
+            } }
+            // a parameter just above 0 / just below 1 (S = 0, single-axis e): foot = start + tau e with tau = 2^-60 resp. 1 - eps/2,
+            // query = foot + 3*2^b on a perpendicular axis: (p - start).e = tau |e|^2, the quotient is tau and tau e is representable
+            if s0.m == 0 && lanes_e == 1 {
+                let pm = if T::EXACT { 53 } else { T::MANT as i32 };
+                for (tau, name) in [(Dy::p2(-60), "parameter just above 0"), (Dy::int(1).sub(Dy::p2(-pm)), "parameter just below 1")] {
+                    for ax in 0..S::D { if e[ax].m == 0 {
+                        let off = Dy::new(3, b);
+                        let foot = [start[0].add(e[0].mul(tau)), start[1].add(e[1].mul(tau)), start[2].add(e[2].mul(tau))];
+                        let mut p = foot; p[ax] = p[ax].add(off);
+                        qs.push((p, foot, Some(off), name));
+                    } }
+                }
+            }
+            for (p, want, wd, name) in qs {
+                if !dyfit::<T>(&p) || !dyfit::<T>(&want) { s.class("skipped: not representable in the tier"); continue; }
+                let (pt, wt) = (dyv::<T>(&p), dyv::<T>(&want));
+                let inp = || json!({"start": jdy(&start, S::D), "end": jdy(&end, S::D), "p": jdy(&p, S::D), "case": name, "end is the float next to start": adjacent});
+                let w = s0.bits() as u64 + s0.e.unsigned_abs() as u64 + b.unsigned_abs() as u64 + lanes_e as u64;
+                s.eval(true);
+                s.class(&format!("{}/{}", T::NAME, name));
+                if adjacent { s.class(&format!("{}/adjacent-floats segment", T::NAME)); }
+                if let Some(g) = s.call(&site_p, inp, || S::proj(seg, &pt)) {
+                    if (0..S::D).any(|i| g[i] != wt[i]) { s.violation_w(&site_p, "end-point:wrong-point", json!({"input": inp(), "got": jt(&g, S::D), "want": jdy(&want, S::D)}), w); }
+                }
+                if let Some(wd) = wd {
+                    s.eval(true);
+                    if let Some(g) = s.call(&site_d, inp, || S::dist(seg, &pt)) {
+                        if g != wd.t::<T>() { s.violation_w(&site_d, "end-point:wrong-distance", json!({"input": inp(), "got": format!("{:?}", g), "want": jq1(wd)}), w); }
+                    }
+                }
+            }
+        }
+    }
+}
+
+// ---- F. bounds on the whole integer family --------------------------------------------------------------------------
+macro_rules! int_bounds {
+    ($s:ident, $tag:expr, $T:ty, $mk:expr) => {{
+        let mk: fn(i64) -> $T = $mk;
+        for c in cube(&[5, 9, 20], 3) { for r in [0i64, 1, 3, 5] {
+            let inp = || json!({"center": c, "radius": r, "type": $tag});
+            let w = l1(&c) + r as u64;
+            if c[2] == 5 {
+                let dk: Disk<$T, $T> = Disk { center: Vec2 { x: mk(c[0]), y: mk(c[1]) }, radius: mk(r) };
+                let site = format!("Disk::aabr<{}>", $tag);
+                $s.eval(r != 0);
+                if let Some(a) = $s.call(&site, inp, || dk.aabr()) { if (a.min.x, a.min.y, a.max.x, a.max.y) != (mk(c[0] - r), mk(c[1] - r), mk(c[0] + r), mk(c[1] + r)) { $s.violation_w(&site, "wrong-bounds", json!({"input": inp(), "got": jd(&a)}), w); } }
+                let site = format!("Disk::rect<{}>", $tag);
+                $s.eval(r != 0);
+                if let Some(a) = $s.call(&site, inp, || dk.rect()) { if (a.x, a.y, a.w, a.h) != (mk(c[0] - r), mk(c[1] - r), mk(2 * r), mk(2 * r)) { $s.violation_w(&site, "wrong-bounds", json!({"input": inp(), "got": jd(&a)}), w); } }
+                let site = format!("Disk::diameter<{}>", $tag);
+                $s.eval(r != 0);
+                if let Some(a) = $s.call(&site, inp, || dk.diameter()) { if a != mk(2 * r) { $s.violation_w(&site, "wrong-value", json!({"input": inp(), "got": jd(&a)}), w); } }
+            }
+            let sp: Sphere<$T, $T> = Sphere { center: Vec3 { x: mk(c[0]), y: mk(c[1]), z: mk(c[2]) }, radius: mk(r) };
+            let site = format!("Sphere::aabb<{}>", $tag);
+            $s.eval(r != 0);
+            if let Some(a) = $s.call(&site, inp, || sp.aabb()) { if (a.min.x, a.min.y, a.min.z, a.max.x, a.max.y, a.max.z) != (mk(c[0] - r), mk(c[1] - r), mk(c[2] - r), mk(c[0] + r), mk(c[1] + r), mk(c[2] + r)) { $s.violation_w(&site, "wrong-bounds", json!({"input": inp(), "got": jd(&a)}), w); } }
+            let site = format!("Sphere::rect3<{}>", $tag);
+            $s.eval(r != 0);
+            if let Some(a) = $s.call(&site, inp, || sp.rect3()) { if (a.x, a.y, a.z, a.w, a.h, a.d) != (mk(c[0] - r), mk(c[1] - r), mk(c[2] - r), mk(2 * r), mk(2 * r), mk(2 * r)) { $s.violation_w(&site, "wrong-bounds", json!({"input": inp(), "got": jd(&a)}), w); } }
+            let site = format!("Sphere::diameter<{}>", $tag);
+            $s.eval(r != 0);
+            if let Some(a) = $s.call(&site, inp, || sp.diameter()) { if a != mk(2 * r) { $s.violation_w(&site, "wrong-value", json!({"input": inp(), "got": jd(&a)}), w); } }
+            $s.class($tag);
+        } }
+    }};
+}
+
 // ---------------------------------------------------------------------------------------------
 
 fn main() {
@@ -1329,6 +1907,130 @@ fn main() {
             ray_list::<f64>(s, &aimed, 0, "aimed:");
             ray_list::<f32>(s, &aimed, 0, "aimed:");
         });
+    // =====================================================================================================
+    // sections added by the second (adversarial) audit (out/AUDIT2.md)
+
+    // ---- A. disks and spheres far from the origin
+    let far64 = [Dy::p2(40), Dy::p2(39).neg(), Dy::p2(41)];
+    let far32 = [Dy::p2(15), Dy::p2(14).neg(), Dy::p2(16)];
+    let fradii: Vec<i64> = if th { vec![-4, 0, 1, 2, 4, 7, 10] } else { vec![-4, 0, 1, 4, 10] };
+    let fpairs: Vec<(i64, i64)> = { let pr: &[i64] = if th { &[0, 1, 2, 4, 10] } else { &[0, 1, 4, 10] }; let mut v: Vec<(i64, i64)> = pr.iter().flat_map(|&a| pr.iter().map(move |&b| (a, b))).collect(); v.push((-1, 5)); v.push((5, -1)); v.push((-4, 1)); v };
+    rep.section("far from the origin: Disk/Sphere contains_point, collides_with_*, collision_vector_with_*, bounds",
+        &format!("every position is O + n/2 with O = (2^40, -2^39, 2^41) for f64 and X, (2^15, -2^14, 2^16) for f32, n on the grids {{-4..4 step 2}}^2 (25 Disk centres) / {{-2,0,2}}^3 (27 Sphere centres) (thorough: the full grids of the base sections); radii {:?}/2 for contains_point and the bounds, radius pairs {:?} (halves) for collides/collision vector; every query point = every centre. All coordinates are exactly representable, all differences of positions are the small half-integers of the base sections, so the oracles are the integer comparisons of the base sections (the offset cancels) and the bounds O + (n -+ r)/2 are representable and compared with ==. The squared coordinates (2^80, f32 2^30) exceed the significand by far: any evaluation through |c|^2 + |p|^2 - 2 c.p or any add-then-subtract of the positions loses the whole distance. Violation classes carry the prefix 'far-from-origin:'. non-trivial: as in the base sections", fradii, fpairs),
+        true, false, |s| {
+            require_tiers(s, &tiers, &["inside", "boundary", "outside", "overlapping", "tangent", "disjoint", "penetrating", "already-tangent", "separated", "bounds"]);
+            let (g2, g3) = if th { (c2.clone(), c3.clone()) } else { (s2.clone(), s3.clone()) };
+            far_ball::<f64, Disk<f64, f64>>(s, &g2, &fradii, &fpairs, &far64);
+            far_ball::<f32, Disk<f32, f32>>(s, &g2, &fradii, &fpairs, &far32);
+            far_ball::<X, Disk<X, X>>(s, &g2, &fradii, &fpairs, &far64);
+            far_ball::<f64, Sphere<f64, f64>>(s, &g3, &fradii, &fpairs, &far64);
+            far_ball::<f32, Sphere<f32, f32>>(s, &g3, &fradii, &fpairs, &far32);
+            far_ball::<X, Sphere<X, X>>(s, &g3, &fradii, &fpairs, &far64);
+        });
+
+    // ---- B. unrelated magnitudes of centre, separation and radius; one-ulp ties
+    rep.section("mixed magnitudes: Disk/Sphere bounds, collision vector; one-ulp ties of contains_point / collides_with_*",
+        "(1) bounds: centre lanes from {big + 1/2, 3, -2^-30, 0, -(4 big + 1)} (big = 2^40 for f64/X, 2^11 for f32; all triples for Sphere, all pairs for Disk) x radii {2^-30, 1/2, 3*2^-45 (f32 3*2^-16), 4 big, 0, 1 + eps, 3/4 and 5/8 of the spacing of the floats at big (3*2^-14, 5*2^-15)}: aabr/aabb min = fl(c - r), max = fl(c + r) = the representable number nearest to the exact value (formed by the harness with ONE operation of the tier and certified against the exact rational: |fl - exact| <= 2^-MANT |exact|), rect position = fl(c - r), rect extent = diameter = 2r exactly; X: exact. A bound computed through the other corner (max = min + 2r, extent = max - min) fails whenever c +- r rounds. (2) collision vector: separation v = dir * 2^ev with dir in {(1,0),(0,-1),(3,4),(-4,3),(-5,-12)} / {(0,0,1),(1,0,0),(1,2,2),(2,-3,6),(-4,4,7)} (rational lengths 1,1,5,5,13 / 1,1,3,7,9) and the axis-aligned nearly-unit separations +-(1 +- 2^-30), 1 + 2^-20 (f32: 2^-12, 2^-8), ev in {-40,-12,0,20} (f32 {-12,-5,0,8}), radii (2,2),(6,1),(0,4),(-2,6),(6,4) halves * 2^er, er in {-20,0,30} (f32 {-8,0,10}), self.center in {0, (3,-7,5) 2^ev}: after moving OTHER by the vector the centre distance is r1 + r2: X exactly; floats |v + cv| recomputed in f64 from the exact v and the returned fields, bound 8 eps (r1 + r2 + |v|) + 4 eps64 (r1 + r2 + |v|) (derivation in the code comment of `mixed_cv_tier`; no '+1' term: the bound follows the magnitudes). (3) one-ulp ties: centre and query (resp. the two centres) differ along one axis by d in {1, 1 + eps, 2 - eps, 3*2^-40, 2^30 + 2^-22 (f32 2^10 + 2^-13), 5/8, 49, 10^-3 rounded, 7*2^20 + 1}: vek's distance is exactly |d| (sqrt(fl(d^2)) = |d|), so contains_point must be exactly |d| <= r and collides exactly |d| <= r1 + r2 for r = the representable number just below |d|, |d|, just above |d|, and -|d| ((r1, r2) in {(r/2, r/2), (0, r), (r, 0)}: exact sums); X: r = |d| (1 -+ 2^-60). Any absolute or RELATIVE tolerance, relative_eq/ulps_eq-style comparison or squared comparison with a differently rounded square shows here. non-trivial: r != 0 / not already tangent / all",
+        true, false, |s| {
+            for t in tiers { s.require_classes(&[&format!("{}/centre+-radius rounds", t) as &str, &format!("{}/penetrating", t), &format!("{}/separated", t), &format!("{}/already-tangent", t), &format!("{}/separation and radii at different scales", t), &format!("{}/nearly-unit separation", t), &format!("{}/radius one step below |d|", t), &format!("{}/radius = |d|", t), &format!("{}/radius one step above |d|", t)][if t == "X" { 1.. } else { 0.. }]); }
+            let h = |m: i128, e: i32| Dy::new(m, e);
+            macro_rules! tier { ($T:ty, $big:expr, $tiny:expr, $nu1:expr, $nu2:expr, $evs:expr, $ers:expr, $dmix:expr) => {{
+                let big: i32 = $big;
+                let p = if <$T as El>::EXACT { 53 } else { <$T as El>::MANT as i32 };
+                let lanes = [Dy::p2(big).add(Dy::p2(-1)), Dy::int(3), Dy::p2(-30).neg(), Dy::ZERO, Dy::p2(big + 2).add(Dy::int(1)).neg()];
+                let rads = [Dy::p2(-30), Dy::p2(-1), h(3, $tiny), Dy::p2(big + 2), Dy::ZERO, Dy::int(1).add(Dy::p2(-(p - 1))), h(3, big - p - 1), h(5, big - p - 2)];
+                mixed_bounds_tier::<$T, Disk<$T, $T>>(s, &lanes, &rads);
+                mixed_bounds_tier::<$T, Sphere<$T, $T>>(s, &lanes, &rads);
+                let (z, o) = (Dy::ZERO, Dy::int(1));
+                let i = |n: i128| Dy::int(n);
+                let mut dirs: Vec<([Dy; 3], Dy)> = vec![([o, z, z], o), ([z, o.neg(), z], o), ([i(3), i(4), z], i(5)), ([i(-4), i(3), z], i(5)), ([i(-5), i(-12), z], i(13)),
+                    ([z, z, o], o), ([i(1), i(2), i(2)], i(3)), ([i(2), i(-3), i(6)], i(7)), ([i(-4), i(4), i(7)], i(9))];
+                for ax in 0..3 { for nu in [o.add(Dy::p2($nu1)), o.sub(Dy::p2($nu1)).neg(), o.add(Dy::p2($nu2))] { let mut d = [z; 3]; d[ax] = nu; dirs.push((d, nu.abs())); } }
+                let evs: &[i32] = &$evs; let ers: &[i32] = &$ers;
+                mixed_cv_tier::<$T, Disk<$T, $T>>(s, &dirs, evs, &[(2, 2), (6, 1), (0, 4), (-2, 6), (6, 4)], ers);
+                mixed_cv_tier::<$T, Sphere<$T, $T>>(s, &dirs, evs, &[(2, 2), (6, 1), (0, 4), (-2, 6), (6, 4)], ers);
+                let ds = [o, o.add(Dy::p2(-(p - 1))), i(2).sub(Dy::p2(-(p - 1))), h(3, -40), $dmix, h(5, -3), i(49), Dy::new((0.001 as $T).f().mul_add(2f64.powi(70), 0.0) as i128, -70), h(7, 20).add(o)];
+                ulp_tie_tier::<$T, Disk<$T, $T>>(s, &ds);
+                ulp_tie_tier::<$T, Sphere<$T, $T>>(s, &ds);
+            }} }
+            tier!(f64, 40, -45, -30, -20, [-40, -12, 0, 20], [-20, 0, 30], Dy::p2(30).add(Dy::p2(-22)));
+            tier!(f32, 11, -16, -12, -8, [-12, -5, 0, 8], [-8, 0, 10], Dy::p2(10).add(Dy::p2(-13)));
+            {
+                // X: the f64 alphabets (everything is exact); 10^-3 as the rational 1/1000 is not dyadic: the f64 value is used
+                type T = X;
+                let big = 40; let p = 53;
+                let lanes = [Dy::p2(big).add(Dy::p2(-1)), Dy::int(3), Dy::p2(-30).neg(), Dy::ZERO, Dy::p2(big + 2).add(Dy::int(1)).neg()];
+                let rads = [Dy::p2(-30), Dy::p2(-1), h(3, -45), Dy::p2(big + 2), Dy::ZERO, Dy::int(1).add(Dy::p2(-(p - 1))), h(3, big - p - 1), h(5, big - p - 2)];
+                mixed_bounds_tier::<T, Disk<T, T>>(s, &lanes, &rads);
+                mixed_bounds_tier::<T, Sphere<T, T>>(s, &lanes, &rads);
+                let (z, o) = (Dy::ZERO, Dy::int(1));
+                let i = |n: i128| Dy::int(n);
+                let mut dirs: Vec<([Dy; 3], Dy)> = vec![([o, z, z], o), ([z, o.neg(), z], o), ([i(3), i(4), z], i(5)), ([i(-4), i(3), z], i(5)), ([i(-5), i(-12), z], i(13)),
+                    ([z, z, o], o), ([i(1), i(2), i(2)], i(3)), ([i(2), i(-3), i(6)], i(7)), ([i(-4), i(4), i(7)], i(9))];
+                for ax in 0..3 { for nu in [o.add(Dy::p2(-30)), o.sub(Dy::p2(-30)).neg(), o.add(Dy::p2(-20))] { let mut d = [z; 3]; d[ax] = nu; dirs.push((d, nu.abs())); } }
+                mixed_cv_tier::<T, Disk<T, T>>(s, &dirs, &[-40, -12, 0, 20], &[(2, 2), (6, 1), (0, 4), (-2, 6), (6, 4)], &[-20, 0, 30]);
+                mixed_cv_tier::<T, Sphere<T, T>>(s, &dirs, &[-40, -12, 0, 20], &[(2, 2), (6, 1), (0, 4), (-2, 6), (6, 4)], &[-20, 0, 30]);
+                let ds = [o, o.add(Dy::p2(-(p - 1))), i(2).sub(Dy::p2(-(p - 1))), h(3, -40), Dy::p2(30).add(Dy::p2(-22)), h(5, -3), i(49), h(7, 20).add(o)];
+                ulp_tie_tier::<T, Disk<T, T>>(s, &ds);
+                ulp_tie_tier::<T, Sphere<T, T>>(s, &ds);
+            }
+        });
+
+    // ---- C. rays: exact-by-construction axis-frame configurations (barely inside / outside, thin and huge triangles, grazing and short directions)
+    rep.section("Ray::triangle_intersection: axis-frame configurations, barely inside/outside, unrelated magnitudes",
+        "triangle v0, v0 + L1 ax1, v0 + L2 ax2 and direction alpha ax1 + beta ax2 + gamma ax3 in a frame (ax1, ax2, ax3) = each of the 6 axis permutations x 3 sign patterns (thorough 5), v0 in {0, (3,-7,5)}; (L1, L2, gamma) in {(1,1,-1), (4,1/2,2), thin triangle (2^10, 2^-30, 1), short direction (2^10, 1, 2^-30), large triangle with grazing direction (2^30, 2^30, -2^-55)} (f32: (2^6,2^-14,1), (2^6,1,2^-14), (2^12,2^12,-2^-25)); (alpha, beta) in {(0,0), (1,0), (-3,2), (2^20,-2^20)} (f32 2^8); the line meets the plane at barycentric (u, v) with parameter tt; origin = crossing point - tt*direction. FINE alphabet of (u, v), delta = 2^-60, eps = the tier's epsilon: (-delta,1/4) (0,1/4) (delta,1/4) (1/4,-delta) (1/4,0) (1/4,delta) (-delta,-delta) (0,0) (delta,delta) (1/2,1/2) (1/2,1/2+eps) (1/2,1/2-eps/2) (1,0) (1+eps,0) (1-eps/2,0) (0,1) (0,1+eps) (1,delta) (delta,1) (1/4,3/4) (1/4,3/4+eps) (-eps,1/4) (1/4,-eps) (eps,eps) (-eps,1) (1,-eps), with tt in {1,-2,0} for perpendicular directions and tt = 0 (origin at the crossing point) for the slanted ones; COARSE alphabet {-1/4,0,1/4,1/2,1,5/4}^2 with tt in {1,-2,2^-20} and all four slopes. Cases whose coordinates, u, v or u + v are not representable in the tier are dropped (X keeps all). Oracle: closed form, Some(tt) iff u >= 0, v >= 0, u + v <= 1, compared exactly (see `ax_cases` for why every float operation of the code under test is exact here); |a| = |gamma| L1 L2 >= epsilon in every frame (vek's parallel guard is idle) while the thin/short frames have |d x e2|^2 < epsilon and the grazing frame an angle of 2^-55 between the direction and the plane. A tolerance on the barycentric tests, a shrunk triangle, a guard on the raw cross product or a relative parallel guard show here and nowhere in the lattice sections (u, v there are rationals with small denominators). non-trivial: all",
+        true, false, |s| {
+            require_tiers(s, &tiers, &["barely-inside", "barely-outside", "edge", "vertex", "interior", "miss", "thin triangle", "short direction", "large triangle, grazing direction"]);
+            ax_ray_tier::<X>(s, th);
+            ax_ray_tier::<f64>(s, th);
+            ax_ray_tier::<f32>(s, th);
+        });
+
+    // ---- D. rays: float tiers outside the exact-reciprocal sub-space; triangles far from the origin
+    let small_aimed = aimed_small();
+    let (roff64, roff32): (P3, P3) = ([1i64 << 50, -(1i64 << 49), 1i64 << 51], [1i64 << 21, -(1i64 << 20), 1i64 << 22]);
+    rep.section("Ray::triangle_intersection: float tiers with an inexact reciprocal; triangles and origins far from the origin",
+        &format!("(1) the aimed cases of the scalene-triangle section ({} per tier; quick: the reduced list of {} cases with two triangles and directions {{-1,0,1}}^3 plus (2,-1,1),(1,2,-2),(-2,1,2)) whose determinant is NOT a power of two, which `ray_case` skips for f64/f32: all integer intermediates are exact (checked per case), the only roundings are fl(1/a) and one product, so u, v, t have the exact sign and relative error < 2 eps: exact miss => None, exact hit with u + v < 1 => Some within 2 eps |t| of the Cramer value, u + v = 1 => verdict open (value checked). (2) the reduced list translated by O = (2^50, -2^49, 2^51) for f64 and X, (2^21, -2^20, 2^22) for f32 (vertices and origins; exactly representable): X and the exact float sub-space through `ray_case` (classes 'far-from-origin:*'), the other float cases through the 2-eps oracle (classes 'far-from-origin:inexact-reciprocal:*'). Differences v1 - v0, v2 - v0, origin - v0 are exact, so the results equal those of the untranslated cases; an evaluation through origin.h - v0.h or any other add-then-subtract of positions loses everything (products 2^50 * |h| exceed 2^53). non-trivial: det != 0", aimed.len(), small_aimed.len()),
+        true, false, |s| {
+            require_tiers(s, &["f64", "f32"], &["inexact-reciprocal: hit", "inexact-reciprocal: miss", "inexact-reciprocal: u+v = 1 (verdict open)", "interior", "edge", "vertex", "miss", "parallel"]);
+            s.require_classes(&["X/interior", "X/edge", "X/vertex", "X/miss", "X/parallel"]);
+            let zero: P3 = [0, 0, 0];
+            let list: &[([P3; 3], P3, P3)] = if th { &aimed } else { &small_aimed };
+            ray_inexact::<f64>(s, list, &zero, "aimed:");
+            ray_inexact::<f32>(s, list, &zero, "aimed:");
+            let (t64, t32) = (translate(&small_aimed, &roff64), translate(&small_aimed, &roff32));
+            ray_list::<X>(s, &t64, 0, "far-from-origin:");
+            ray_list::<f64>(s, &t64, 0, "far-from-origin:");
+            ray_list::<f32>(s, &t32, 0, "far-from-origin:");
+            ray_inexact::<f64>(s, &small_aimed, &roff64, "far-from-origin:");
+            ray_inexact::<f32>(s, &small_aimed, &roff32, "far-from-origin:");
+        });
+
+    // ---- E. segments: exact end points / mid points / perpendicular offsets, adjacent-float segments
+    rep.section("LineSegment2/3: end points, mid points and perpendicular offsets that are exact by construction",
+        "start = (S,..,S), end = start + e with e = +-2^b on one axis or +-2^b on two axes (all sign combinations, every axis), (S, b) in {(0,0), (0,-20) (f32 (0,-11)), (3,1), (-2^40,3) (f32 (-2^12,3)), (2^27,-25) (f32 (2^12,-11))}: the last one is a segment between two ADJACENT floats far from the origin whose squared length (2^-50, f32 2^-22) is still above vek's absolute epsilon guard. Queries: end, start, end + e, start - e, start + e/2, end + 3*2^b and start - 3*2^b on each axis perpendicular to e, and (S = 0, single-axis e) start + tau e + 3*2^b perpendicular with tau = 2^-60 and tau = 1 - eps/2 (foot = start + tau e exactly, distance 3*2^b: a snap of small parameters to 0 or of parameters near 1 to 1 shows). On these inputs p - start, (p - start).e and |e|^2 are exact, the clamped parameter is exactly 1, 0, 1, 0, 1/2, 1, 0 and start + e*t is representable, so projected_point must return end, start, end, start, the mid point, end, start EXACTLY and distance_to_point 0, 0, |e|, |e|, 0, 3*2^b, 3*2^b exactly (|e| only for single-axis e), in every tier. A degeneracy test on the relative difference of the END POINTS (or any guard scaled by the coordinates) collapses the adjacent-float segment to start. non-trivial: all",
+        true, false, |s| {
+            for t in tiers { s.require_classes(&[&format!("{}/query = end", t) as &str, &format!("{}/query beyond end", t), &format!("{}/query = mid point", t), &format!("{}/query = end + perpendicular offset", t), &format!("{}/parameter just above 0", t), &format!("{}/parameter just below 1", t)]); }
+            s.require_classes(&["f64/adjacent-floats segment", "f32/adjacent-floats segment"]);
+            let sb64 = [(Dy::ZERO, 0), (Dy::ZERO, -20), (Dy::int(3), 1), (Dy::p2(40).neg(), 3), (Dy::p2(27), -25)];
+            let sb32 = [(Dy::ZERO, 0), (Dy::ZERO, -11), (Dy::int(3), 1), (Dy::p2(12).neg(), 3), (Dy::p2(12), -11)];
+            seg_ends_tier::<f64, LineSegment2<f64>>(s, &sb64); seg_ends_tier::<f64, LineSegment3<f64>>(s, &sb64);
+            seg_ends_tier::<f32, LineSegment2<f32>>(s, &sb32); seg_ends_tier::<f32, LineSegment3<f32>>(s, &sb32);
+            seg_ends_tier::<X, LineSegment2<X>>(s, &sb64); seg_ends_tier::<X, LineSegment3<X>>(s, &sb64);
+        });
+
+    // ---- F. bounds on every integer element type
+    rep.section("integer family: Disk/Sphere aabr/aabb/rect/rect3/diameter on i8 .. u128, isize/usize, Wrapping<_>",
+        "Disk<T,T>/Sphere<T,T> for T in {i8,u8,i16,u16,u32,i64,u64,i128,u128,isize,usize,Wrapping<i32>,Wrapping<u8>} (i32 is in the base section): centres {5,9,20}^d x radii {0,1,3,5} (centre - radius >= 0, nothing wraps): min = c - r, max = c + r, rect position c - r, extent = diameter = 2r, compared with == on values converted from i64. The code is one generic impl; this pins every instantiation a per-type rewrite or a per-type operator impl in vec.rs could touch. non-trivial: r > 0",
+        true, false, |s| {
+            use std::num::Wrapping;
+            s.require_classes(&["i8", "u8", "i16", "u16", "u32", "i64", "u64", "i128", "u128", "isize", "usize", "Wrapping<i32>", "Wrapping<u8>"]);
+            int_bounds!(s, "i8", i8, |v| v as i8); int_bounds!(s, "u8", u8, |v| v as u8); int_bounds!(s, "i16", i16, |v| v as i16); int_bounds!(s, "u16", u16, |v| v as u16);
+            int_bounds!(s, "u32", u32, |v| v as u32); int_bounds!(s, "i64", i64, |v| v); int_bounds!(s, "u64", u64, |v| v as u64); int_bounds!(s, "i128", i128, |v| v as i128);
+            int_bounds!(s, "u128", u128, |v| v as u128); int_bounds!(s, "isize", isize, |v| v as isize); int_bounds!(s, "usize", usize, |v| v as usize);
+            int_bounds!(s, "Wrapping<i32>", Wrapping<i32>, |v| Wrapping(v as i32)); int_bounds!(s, "Wrapping<u8>", Wrapping<u8>, |v| Wrapping(v as u8));
+        });
+
     if th {
         // ---- thorough only: the base ray grid with vertices of both signs
         rep.section("Ray::triangle_intersection: vertices of both signs",
